@@ -801,6 +801,13 @@ def rule_nf7(ctx: Ctx) -> RuleResult:
     if not inner:
         raise AnalysisError("NF-7: member handler closure of DUnion.__init__ not found")
     h = inner[0]
+    returns_flag = any(isinstance(x, ast.Return) and x.value is not None for x in walk_no_nested(h.node))
+    if not returns_flag:
+        rr.instances += 1
+        rr.ob(f.relpath, f.qualname, h.name, "member handler keeps the flag itself", DISCHARGED,
+              "the handler returns nothing (state is kept elsewhere): nothing to fold back", h.node.lineno, trivial=True)
+        rr.instances += 1
+        return rr
     for n in walk_no_nested(f.node):
         if isinstance(n, ast.Call) and isinstance(n.func, ast.Name) and n.func.id == h.name:
             rr.instances += 1
